@@ -359,12 +359,13 @@ def gen_total(tier, R):
     pool = "aZ_09 \t\n+-*/()[],.<>='{}$éß日本😀́  ٣½²ǅ\x00\x7f﻿"
     # long FLAT chains (nesting depth 0): the parser must consume them in its loop, not by recursion - recursion depth that grows with the length overflows the stack here
     for opt in ['+', '-', '*', '/', ' div ', ' mod ', ' and ', ' or ', ' xor ', '=', '<>', '<', '>', '<=', '>=']:
-        for n in ((200, 3000, 20000) if tier == 'quick' else (200, 1000, 3000, 8000, 20000, 30000)):
+        for n in ((200, 3000, 8000) if tier == 'quick' else (200, 1000, 3000, 8000, 20000)):   # (quadratic scanning: 20000 operands take seconds, too close to the stall threshold under load)
             out.append(text_case('text', opt.join(['a'] * n)))
-    out.append(text_case('text', '[' + ','.join(['1'] * 20000) + ']'))
-    out.append(text_case('text', 'f(' + ','.join(['x'] * 20000) + ')'))
-    out.append(text_case('text', "'" + "a''" * 20000 + "'"))
-    out.append(text_case('text', '1 ' + '{c}' * 20000 + ' + 2'))
+    big = 8000 if tier == 'quick' else 20000
+    out.append(text_case('text', '[' + ','.join(['1'] * big) + ']'))
+    out.append(text_case('text', 'f(' + ','.join(['x'] * big) + ')'))
+    out.append(text_case('text', "'" + "a''" * big + "'"))
+    out.append(text_case('text', '1 ' + '{c}' * big + ' + 2'))
     for _ in range(3000 if tier == 'quick' else 200000):
         out.append(text_case('text', ''.join(R.choice(pool) for _ in range(R.randint(0, 30)))))
     return out
